@@ -37,13 +37,13 @@ func HashString(s string) uint64 {
 }
 
 type Stream struct {
-	Seed   uint64
-	rng    *rand.Rand
-	replay []uint64
-	isRep  bool
-	pos    int
-	Rec    []uint64 // values handed out, in order
-	Labels []string // only kept when KeepLabels
+	Seed       uint64
+	rng        *rand.Rand
+	replay     []uint64
+	isRep      bool
+	pos        int
+	Rec        []uint64 // values handed out, in order
+	Labels     []string // only kept when KeepLabels
 	KeepLabels bool
 }
 
